@@ -473,10 +473,12 @@ func (a *Analyzer) buildElementTree(result *AnalysisResult) []LayoutElement {
 	return elements
 }
 
-// getListText extracts all text from a list by concatenating item prefixes and text.
+// getListText extracts all text from a list by concatenating item prefixes and text,
+// nested items included.
 func getListText(list *List) string {
 	var text string
-	for _, item := range list.Items {
+	// GetAllItems also walks the items that nesting detection moved under a parent
+	for _, item := range list.GetAllItems() {
 		text += item.Prefix + " " + item.Text + "\n"
 	}
 	return text
